@@ -320,4 +320,103 @@ theorem expandBack_none (pre : List St) : pre.foldr expandStep (none : Option Ex
   | nil => rfl
   | cons s pre ih => simp only [List.foldr, ih]; cases s <;> rfl
 
+/-! ### parameter mappings of the numeric evaluators -/
+
+namespace PMap
+
+theorem toSub_get (m : PMap) (n : Sym) : m.toSub.get n = m.value n := by
+  induction m with
+  | nil => rfl
+  | cons p m ih =>
+    obtain ⟨k, v⟩ := p
+    simp only [toSub, List.map_cons, Sub.get, value]
+    by_cases h : n = k.name
+    · simp [h]
+    · simp only [h, ↓reduceIte]; exact ih
+
+theorem value_append (a b : PMap) (n : Sym) :
+    (a ++ b).value n = match a.value n with
+      | some v => some v
+      | none => b.value n := by
+  induction a with
+  | nil => simp [value]
+  | cons p a ih =>
+    obtain ⟨k, v⟩ := p
+    simp only [List.cons_append, value]
+    by_cases h : n = k.name
+    · simp [h]
+    · simp only [h, ↓reduceIte]; exact ih
+
+theorem atKey_str (m : PMap) (hs : ∀ p ∈ m, p.1.isStr = true) (n : Sym) :
+    m.atKey (.str n) = m.value n := by
+  induction m with
+  | nil => rfl
+  | cons p m ih =>
+    obtain ⟨k, v⟩ := p
+    have hk := hs (k, v) (by simp)
+    have ih' := ih (fun q hq => hs q (List.mem_cons_of_mem _ hq))
+    cases k with
+    | str n' =>
+      simp only [atKey, value, Key.name, Key.str.injEq]
+      by_cases h : n = n'
+      · simp [h]
+      · simp only [h, ↓reduceIte]; exact ih'
+    | symbol n' => simp [Key.isStr] at hk
+    | expr n' => simp [Key.isStr] at hk
+
+end PMap
+
+theorem initsMap_any (inits : List (Sym × Expr)) (n : Sym) :
+    ((initsMap inits).any (fun q => q.1 == Key.str n)) = ((initsMap inits).value n).isSome := by
+  induction inits with
+  | nil => rfl
+  | cons p inits ih =>
+    obtain ⟨k, v⟩ := p
+    simp only [initsMap, List.map_cons, List.any_cons, PMap.value, Key.name] at ih ⊢
+    by_cases h : n = k
+    · subst h; simp
+    · have : (Key.str k == Key.str n) = false := by
+        simp only [beq_eq_false_iff_ne, ne_eq, Key.str.injEq]
+        exact fun hh => h hh.symm
+      simp only [this, Bool.false_or, h, ↓reduceIte]
+      exact ih
+
+theorem merged_base_value (inits : List (Sym × Expr)) (given : PMap) (n : Sym) :
+    PMap.value ((initsMap inits).map (fun q => (q.1, (given.atKey q.1).getD q.2))) n =
+      match (initsMap inits).value n with
+      | some v0 => some ((given.atKey (.str n)).getD v0)
+      | none => none := by
+  induction inits with
+  | nil => rfl
+  | cons p inits ih =>
+    obtain ⟨k, v⟩ := p
+    simp only [initsMap, List.map_cons, PMap.value, Key.name] at ih ⊢
+    by_cases h : n = k
+    · subst h; simp
+    · simp only [h, ↓reduceIte]; exact ih
+
+theorem merged_rest_value (inits : List (Sym × Expr)) (given : PMap)
+    (hs : ∀ p ∈ given, p.1.isStr = true) (n : Sym) (hn : (initsMap inits).value n = none) :
+    PMap.value (given.filter (fun p => !((initsMap inits).any (fun q => q.1 == p.1)))) n = given.value n := by
+  induction given with
+  | nil => rfl
+  | cons p given ih =>
+    obtain ⟨k, v⟩ := p
+    have hk := hs (k, v) (by simp)
+    have ih' := ih (fun q hq => hs q (List.mem_cons_of_mem _ hq))
+    cases k with
+    | symbol n' => simp [Key.isStr] at hk
+    | expr n' => simp [Key.isStr] at hk
+    | str n' =>
+      simp only [List.filter_cons, initsMap_any]
+      by_cases h : n = n'
+      · subst h
+        simp [hn, PMap.value, Key.name]
+      · by_cases hkeep : ((initsMap inits).value n').isSome = true
+        · simp only [hkeep, Bool.not_true, Bool.false_eq_true, ↓reduceIte, PMap.value, Key.name, h]
+          exact ih'
+        · simp only [Bool.not_eq_true] at hkeep
+          simp only [hkeep, Bool.not_false, ↓reduceIte, PMap.value, Key.name, h]
+          exact ih'
+
 end Pharmpy.C07
